@@ -218,13 +218,21 @@ func exec(op string, args []string) {
 
 // ---- generation ----
 
-func genLayout(r *hx.Rng) {
+// genLayout: forceRacks > 0 fixes the number of racks (7 and 14 divide the 14 shards exactly: the
+// even-spread target ceil(14/#racks) is then 2 resp. 1 and a rack at the target must not grow).
+func genLayout(r *hx.Rng, forceRacks int) {
 	exec("reset", nil)
 	nr := 1 + r.Intn(5)
+	if forceRacks > 0 {
+		nr = forceRacks
+	}
 	id := 0
 	var nodes []*ecnode
 	for rk := 1; rk <= nr; rk++ {
 		ns := 1 + r.Intn(4)
+		if forceRacks > 0 {
+			ns = 1 + r.Intn(2)
+		}
 		for k := 0; k < ns; k++ {
 			id++
 			nodes = append(nodes, &ecnode{id: id, rack: rk, hdd: r.Chance(9, 10)})
@@ -328,6 +336,14 @@ func main() {
 	}
 	r := hx.NewRng(a.Seed)
 	for i := 0; i < a.N(1500); i++ {
-		genLayout(r)
+		genLayout(r, 0)
+	}
+	// after the random layouts (their random stream is unchanged): exact divisions of the 14 shards
+	for i := 0; i < a.N(60); i++ {
+		if i%3 == 2 {
+			genLayout(r, 14)
+		} else {
+			genLayout(r, 7)
+		}
 	}
 }
